@@ -401,7 +401,17 @@ TFs ==
                [] Ev.op = "remove" -> disk \ {d}
                [] Ev.op = "rename" -> (disk \ {d}) \cup {<<Ev.tokind, Ev.ton>>}
                [] OTHER -> disk
-  /\ Judge /\ Step(Ev.op \in {"remove", "rename"}, "Fs")
+  \* the log format (RainLog: WriterPosition): a fragment never crosses a 32 KiB block boundary and
+  \* never starts in the last 6 bytes of a block - i.e. the writer knows where in the file it is
+  \* (it does not if the size query at reopen-for-append failed and the failure was swallowed)
+  /\ JudgeAnd(IF Ev.op = "write" /\ Ev.kind \in {"wal", "manifest"}
+              THEN IF (Ev.off \div 32768 # (Ev.off + Ev.len - 1) \div 32768)
+                      \/ (Ev.len >= 7 /\ (Ev.off % 32768) > 32768 - 7)
+                   THEN ObsViol(IF FaultMode THEN <<"C08", "C12">> ELSE <<"C12">>,
+                                "LogWriterMisplaced", [keys |-> <<Ev.n, Ev.off, Ev.len>>, at |-> 0])
+                   ELSE <<>>
+              ELSE <<>>)
+  /\ Step(Ev.op \in {"remove", "rename"}, "Fs")
   /\ UNCHANGED <<nk, seq, hist, mem, imm, immOn, immDone, immWal, files, cur, pins, snaps,
                  pending, comp, nextFile, curWal, logWal, nextPin, gcDue, runInfo, keep, lastIter,
                  manNo, isOpen, flushed, gpins, deferred, ackStore, inflight>>
